@@ -8,7 +8,7 @@ from pathlib2 import Guard, established, success_sites, dominated, dominates_blo
 import ex
 
 LEVEL = "other"
-TECHNIQUE = ("known-bits abstract interpretation of clamp_integer's MIR (complete for that function); PATH rules (call-identity data flow, "
+TECHNIQUE = ("LADDER (polynomial multiples of the base point over symbolic scalar bits) and FORMULA (rational functions: ladder step, birational maps) abstract domains on the MIR interpreter; known-bits abstract interpretation of clamp_integer's MIR (complete for that function); PATH rules (call-identity data flow, "
              "loop-structure and dominance checks on the ladder, must-pass-through of the u=-1 rejection, NOCALL of un-clamped multiplications in x25519-dalek) "
              "over resolved MIR of all three crates")
 
@@ -22,7 +22,8 @@ def run(tier, R):
         cfgs += [("serial32", "release"), ("fiat64", "release"), ("notables", "release"), ("ifma", "release")]
     FS = ctx.facts_for(R, cfgs)
     R.trust("rustc MIR + resolution; mirfacts; mirlib")
-    R.assume("ladder step (differential_add_and_double: P <- 2P, Q <- P+Q given Q-P = +-base), conditional_swap, field arithmetic and the birational map formulas are value-correct (C01/C04 value level, not decided)")
+    R.assume("field arithmetic implements the ring operations of GF(p) (C01, C11); conditional_swap swaps; Montgomery's x-only doubling / differential-addition formulas compute x(2P), x(P+Q) "
+             "(cited, the code is compared with them as rational identities by C07.formula)")
     for (cfg, mode), F in FS.items():
         check_cfg(F, R, cfg)
 
@@ -293,6 +294,22 @@ def check_cfg(F, R, cfg):
         else:
             good, msg = ladder_structure(F, view(F, mb))      # syntactic form: only used to explain the failure
             R.viol("C07.ladder.structure", I("mul_bits_be"), sem[1] + ("" if good else "; " + msg), view(F, mb).loc())
+
+    # ------------------------------------------------------------------ 4b. FORMULA domain: ladder step and birational maps as rational identities
+    import formula_rules as FR
+    mpp = F.adts.get("curve25519_dalek::montgomery::ProjectivePoint")
+    if not mpp:
+        R.anchor_missing("C07.anchor", I("montgomery::ProjectivePoint"))
+    else:
+        fe_ty = mpp["variants"][0]["fields"][0]["ty"]
+        nf = 0
+        f_, ok, msg = FR.ladder_step(F, fe_ty)
+        nf += 1 if f_ else 0
+        (R.ok if ok else R.viol)("C07.formula", I("differential_add_and_double"), msg, *(() if ok else (F.loc(f_) if f_ else "",)))
+        for inst, f_, ok, msg in FR.birational(F, fe_ty):
+            nf += 1 if f_ else 0
+            (R.ok if ok else R.viol)("C07.formula", I(inst), str(msg), *(() if ok else (F.loc(f_) if f_ else "",)))
+        R.floor("C07.formula", I("Montgomery formulas decided"), nf, 3)
 
     # ------------------------------------------------------------------ 5. to_edwards
     te = fn("curve25519_dalek::montgomery::MontgomeryPoint::to_edwards")
